@@ -205,6 +205,14 @@ def run(cx, tier='quick'):
     check_expr_table(cx, rep)
     # the type-level and the field-level builder of Into key their targets the same way (shared with C10): otherwise the documented
     # `Into(&str)` marker on a field is refused
+    # the reference test of the Deref family looks through groups in every place (shared with C09): else Deref and DerefMut of one
+    # type disagree about Target
+    from .c09 import check_dereference_helper
+    check_dereference_helper(cx, rep, 'SUM-DEREF')
+    # a documented form must be accepted: the "nothing to show and no name" refusal of Debug follows the shown fields (shared with C06 / C13)
+    from .c13_sel import check_has_fields_flag
+    from ..facts import Facts as _Fh
+    check_has_fields_flag(cx, _Fh(cx), rep)
     from .c10 import check_keys_normalised, check_hash_type
     check_keys_normalised(cx, rep)
     check_hash_type(cx, rep)
